@@ -1,5 +1,6 @@
 import PynnVerif.Proofs.Search
 import PynnVerif.Proofs.SearchReach
+import PynnVerif.Proofs.GenVisited
 import Mathlib.Data.Nat.Basic  -- `LinearOrder Nat` for the concrete examples
 
 /-!
@@ -398,5 +399,51 @@ example : Reach #[0, 1, 3, 5, 7, 8, 9, 10] #[1, 0, 2, 1, 3, 2, 4, 3, 6, 5] [0, 1
   .edge (.edge (.edge (.seed (by decide)) (by decide : 2 ∈ nbrs _ _ 1)) (by decide : 3 ∈ nbrs _ _ 2))
     (by decide : 4 ∈ nbrs _ _ 3)
 example : ∀ u < 5, 5 ∉ nbrs #[0, 1, 3, 5, 7, 8, 9, 10] #[1, 0, 2, 1, 3, 2, 4, 3, 6, 5] u := by decide
+
+/-! ## The generated visited-table kernels
+
+`utils.has_been_visited` / `utils.mark_visited` keep one bit per vertex in a byte array (`table[c >> 3]`, bit
+`c & 7`).  `Gen/Kernels.lean` holds their translation (regenerated from the source on every run; `>>`, `<<`, `&`,
+`|` on non-negative ints go through `Nat`, a negative operand is `none`).  `visOf table` is the model's
+`Array Bool` table read off the bytes. -/
+
+/-- **`has_been_visited` is the model's `visited`.**  For a vertex `c` whose byte exists (`c / 8 < len(table)`)
+and a table of non-negative bytes, the translated kernel reads inside the table and returns a non-zero value
+iff the model's table says "visited". -/
+theorem kernel_has_been_visited_refines (table : Array Int) (c : Nat) (fuel : Nat) (hc : c / 8 < table.size)
+    (hb : ∀ j (h : j < table.size), 0 ≤ table[j]) :
+    ∃ r, GenK.has_been_visited fuel table (c : Int) = some r ∧ (r ≠ 0 ↔ visited (visOf table) c = true) := by
+  obtain ⟨r, h1, h2⟩ := has_been_visited_refines table c fuel hc hb
+  exact ⟨r, h1, by rw [visited_visOf]; exact h2⟩
+
+/-- **`mark_visited` is the model's `mark`**: it stays inside the table, sets the bit of `c` and no other
+(`visOf table' = mark (visOf table) c`), and bytes stay bytes (`< 2^8`, non-negative). -/
+theorem kernel_mark_visited_refines (table : Array Int) (c : Nat) (fuel : Nat) (hc : c / 8 < table.size)
+    (hb : ∀ j (h : j < table.size), 0 ≤ table[j]) (hB : ∀ j (h : j < table.size), table[j] < 2 ^ 8) :
+    ∃ table', GenK.mark_visited fuel table (c : Int) = some table' ∧ table'.size = table.size ∧
+      (∀ j (h : j < table'.size), 0 ≤ table'[j] ∧ table'[j] < 2 ^ 8) ∧
+      visOf table' = mark (visOf table) c := by
+  obtain ⟨t', h1, h2, h3, h4, h5⟩ := mark_visited_refines table c fuel hc hb
+  exact ⟨t', h1, h2, fun j h => ⟨h3 j h, h4 8 hB (by omega) j h⟩, visOf_mark table t' c h2 hc h5⟩
+
+/-- a vertex outside the table (`c / 8 ≥ len(table)`) makes both kernels read out of bounds: the search's
+`visited = np.zeros((n // 8) + 1)` is what keeps every `c < n` inside -/
+theorem kernel_visited_out_of_table (table : Array Int) (c : Nat) (fuel : Nat) (hc : table.size ≤ c / 8) :
+    GenK.has_been_visited fuel table (c : Int) = none ∧ GenK.mark_visited fuel table (c : Int) = none := by
+  have e3 : (3 : Int) = ((3 : Nat) : Int) := rfl
+  have e7 : (7 : Int) = ((7 : Nat) : Int) := rfl
+  have e1 : (1 : Int) = ((1 : Nat) : Int) := rfl
+  have hs : c >>> 3 = c / 8 := by rw [Nat.shiftRight_eq_div_pow]
+  have hr : GenK.rd table ((c / 8 : Nat) : Int) = none := by simp [GenK.rd]; omega
+  constructor
+  · unfold GenK.has_been_visited
+    simp only [e3, e7, e1, shr_nat, shl_nat, band_nat, Option.bind_eq_bind, Option.bind_some, hs, hr, Option.bind_none]
+  · unfold GenK.mark_visited
+    simp only [e3, e7, e1, shr_nat, shl_nat, band_nat, Option.bind_eq_bind, Option.bind_some, hs, hr, Option.bind_none]
+
+/-- generated kernels executed by the Lean kernel: vertex 10 is bit 2 of byte 1 -/
+example : GenK.mark_visited 0 #[0, 0] 10 = some #[0, 4] ∧ GenK.has_been_visited 0 #[0, 4] 10 = some 4 ∧
+    GenK.has_been_visited 0 #[0, 4] 11 = some 0 ∧ GenK.mark_visited 0 #[255, 4] 3 = some #[255, 4] ∧
+    GenK.has_been_visited 0 #[0, 4] 16 = none := by decide +kernel
 
 end Pynn.C02
